@@ -53,7 +53,7 @@ impl World {
         }
         let b = self.chain.last().clone();
         let origin = Full::of(&b);
-        self.searchers.push(Searcher { board: b, origin, stack: vec![], nodes: 0 });
+        self.searchers.push(Searcher { board: b, origin, stack: vec![], nodes: 0, tainted: false });
         self.stats.hit("op.spawn-searcher");
         Ok(Exec::Done)
     }
@@ -61,19 +61,23 @@ impl World {
     /// Un-makes everything (LIFO) and checks that the board is bit-identical to the
     /// board the searcher was cloned from.
     pub(crate) fn retire_searcher(&mut self, idx: usize) -> Result<(), Violation> {
+        if !self.on(C04) && !self.on(C05) {
+            // nothing about un-making is being judged: just drop the private board
+            self.searchers.remove(idx);
+            self.stats.hit("op.retire-searcher");
+            return Ok(());
+        }
         while !self.searchers[idx].stack.is_empty() {
             self.searcher_unmake(idx)?;
         }
         let s = self.searchers.remove(idx);
         if let Some(d) = Full::of(&s.board).diff(&s.origin) {
-            for p in [C04, C05] {
-                if self.on(p) {
-                    return Err(self.fail(
-                        p,
-                        "undo-mismatch",
-                        format!("after un-making a whole search tree the board differs from its origin (now vs origin): {}", d),
-                    ));
-                }
+            if self.on(C04) {
+                return Err(self.fail(
+                    C04,
+                    "undo-mismatch",
+                    format!("after un-making a whole search tree the board differs from its origin (now vs origin): {}", d),
+                ));
             }
         }
         self.stats.hit("op.retire-searcher");
@@ -81,6 +85,7 @@ impl World {
     }
 
     fn searcher_unmake(&mut self, idx: usize) -> Result<(), Violation> {
+        self.searchers[idx].tainted = true;
         let fr = self.searchers[idx].stack.pop().unwrap();
         unsafe { unmake_move_unchecked(&mut self.searchers[idx].board, fr.mv, fr.undo) };
         self.stats.hit("op.s-unmake");
@@ -153,6 +158,21 @@ impl World {
         if idx >= self.searchers.len() {
             return Ok(Exec::Skipped);
         }
+        // C02 is about positions obtained without unsafe code: on a board that an unsafe
+        // primitive has touched its oracles are switched off for the duration of the step.
+        let saved = self.props;
+        if self.searchers[idx].tainted {
+            self.props &= !C02;
+            if saved & C02 != 0 {
+                self.stats.hit("note.c02-not-judged-on-board-touched-by-unsafe-code");
+            }
+        }
+        let r = self.op_searcher_inner(idx, sop);
+        self.props = saved;
+        r
+    }
+
+    fn op_searcher_inner(&mut self, idx: usize, sop: &SOp) -> R {
         let transient = self.searchers[idx].stack.last().map_or(false, |f| f.transient);
         match sop {
             SOp::Retire => {
@@ -188,6 +208,7 @@ impl World {
                     return Ok(Exec::Skipped);
                 }
                 let before = Full::of(&self.searchers[idx].board);
+                self.searchers[idx].tainted = true;
                 let model_exposes = !info.pos.is_legal_after(*m);
                 let rook_home = matches!(m.dst, 0 | 7 | 56 | 63)
                     && info.pos.sq[m.dst as usize] != 0
@@ -244,10 +265,14 @@ impl World {
             }
             SOp::MakeNull | SOp::TryNull => {
                 let before = Full::of(&self.searchers[idx].board);
+                if let SOp::TryNull = sop {
+                    self.searchers[idx].tainted = true;
+                }
                 if let SOp::MakeNull = sop {
                     if info.in_check || self.searchers[idx].board.is_check() {
                         return Ok(Exec::Skipped);
                     }
+                    self.searchers[idx].tainted = true;
                     let undo = unsafe { make_move_unchecked(&mut self.searchers[idx].board, Move::NULL) };
                     self.searchers[idx].nodes += 1;
                     self.stats.hit("op.s-make-null");
